@@ -5,7 +5,9 @@ fn main() {
     let args: Vec<String> = std::env::args().collect();
     run::install_panic_hook();
     let mut out: Box<dyn Write> = Box::new(std::io::stdout());
+    let mut scn_out: Option<Box<dyn Write>> = None;
     let mut scns: Vec<scenario::Scenario> = vec![];
+    let mut quiet = false;
     let mut i = 1;
     while i < args.len() {
         match args[i].as_str() {
@@ -17,24 +19,55 @@ fn main() {
                 }
                 i += 1;
             }
-            "--basic" => {
-                let seed: u64 = args[i + 1].parse().unwrap();
-                scns.push(gen::basic(seed));
-                i += 1;
+            "--gen" => {
+                // --gen family seed count
+                let fam = args[i + 1].clone();
+                let seed: u64 = args[i + 2].parse().unwrap();
+                let n: u64 = args[i + 3].parse().unwrap();
+                for k in 0..n {
+                    scns.push(gen::by_family(&fam, seed.wrapping_mul(1_000_003).wrapping_add(k)));
+                }
+                i += 3;
+            }
+            "--one" => {
+                let fam = args[i + 1].clone();
+                let seed: u64 = args[i + 2].parse().unwrap();
+                scns.push(gen::by_family(&fam, seed));
+                i += 2;
             }
             "--out" => {
                 out = Box::new(std::io::BufWriter::new(std::fs::File::create(&args[i + 1]).unwrap()));
                 i += 1;
             }
+            "--dump-scenarios" => {
+                scn_out = Some(Box::new(std::io::BufWriter::new(std::fs::File::create(&args[i + 1]).unwrap())));
+                i += 1;
+            }
+            "--quiet" => quiet = true,
             _ => {}
         }
         i += 1;
     }
+    let mut tot_ev = 0usize;
+    let mut tot_steps = 0u64;
+    let mut panics = 0usize;
+    let mut budgets = 0usize;
     for s in &scns {
+        if let Some(so) = scn_out.as_mut() {
+            writeln!(so, "{}", serde_json::to_string(s).unwrap()).unwrap();
+            so.flush().unwrap();
+        }
         let r = run::run(s, true);
         for l in &r.lines {
             writeln!(out, "{}", l).unwrap();
         }
-        eprintln!("{}: steps={} events={} panics={} budget={}", s.name, r.steps, r.events, r.panics, r.budget);
+        tot_ev += r.events;
+        tot_steps += r.steps;
+        panics += r.panics;
+        budgets += r.budget as usize;
+        if !quiet {
+            eprintln!("{}: steps={} events={} panics={} budget={}", s.name, r.steps, r.events, r.panics, r.budget);
+        }
     }
+    eprintln!("SUMMARY scenarios={} events={} steps={} panics={} budget={}", scns.len(), tot_ev, tot_steps, panics, budgets);
 }
